@@ -72,6 +72,12 @@ def cases(tier, seed):
                 for mode in ("inline", "deferred"):
                     d = D if n < 100 else 1
                     out.append({"server": server, "kind": kind, "n": n, "mode": mode, "D": d, "seed": seed})
+    # several lost responses in one transfer (e.g. a lost segment and its lost retransmission): loss-only alphabet
+    for server, kinds in (("real", KINDS_REAL), ("ref", KINDS_REF)):
+        for kind in kinds:
+            for n in ([2] if kind.startswith("exp") else ([8, 15, 22] if kind.startswith("blk") else [8, 15])):
+                out.append({"server": server, "kind": kind, "n": n, "mode": "inline", "D": 2 if tier == "quick" else 3,
+                            "seed": seed, "loss_only": True})
     k = seed % len(out)
     return out[k:] + out[:k]
 
@@ -79,11 +85,12 @@ def cases(tier, seed):
 class Link:
     """Client network <-> server with a fault layer on the server->client direction."""
 
-    def __init__(self, server, mode, ch, blk_plan=(3,), style="auto"):
+    def __init__(self, server, mode, ch, blk_plan=(3,), style="auto", loss_only=False):
         import canopen
         simenv.new_world()
         self.ch = ch
         self.mode = mode
+        self.loss_only = loss_only   # only {deliver, lost} at response frames (multi-loss exploration)
         self.faults_on = True
         self.pending = []            # frames on their way to the client (deferred mode)
         self.late = []               # frames withheld until the client has given up
@@ -124,7 +131,7 @@ class Link:
     def client_send(self, msg):
         f = bytes(msg.data)
         self.client_frames.append(f)
-        if self.faults_on:
+        if self.faults_on and not self.loss_only:
             k = self.ch.choose(1 + len(STALE), f"req{len(self.client_frames)}:stale-after")
             if k:
                 name, fr = STALE[k - 1]
@@ -174,6 +181,13 @@ class Link:
         seg_phase = self._in_block_upload_segments() and not (r[0] >> 5 == 6 and (r[0] & 3) in (0, 1) and False)
         scs = r[0] >> 5
         alts = ["deliver", "lost", "late", "abort", "scs", "dup"]
+        if self.loss_only:
+            label = f"resp{self.step}:loss-only"
+            if self.ch.choose(2, label):
+                self.deviations.append((label, "lost"))
+                self.queued_at_loss = self.delivered + len(self.pending)
+                return []
+            return [r]
         is_segment_resp = not seg_phase and scs in (0, 1)
         has_mux = not seg_phase and (scs in (2, 3) or (scs in (5, 6) and (r[0] & 3) == 0 and r[1:4] == MUX))
         if is_segment_resp:
@@ -297,11 +311,11 @@ FOLLOW = [("seg-dl", 9), ("seg-ul", 9), ("exp-dl", 2), ("exp-ul", 3)]
 def one_execution(case, ch):
     kind, n = case["kind"], case["n"]
     style = "seg_nos" if kind == "seg-ul-nosize" else ("seg_s" if kind == "seg-ul" and case["server"] == "ref" else "auto")
-    link = Link(case["server"], case["mode"], ch, style=style)
+    link = Link(case["server"], case["mode"], ch, style=style, loss_only=bool(case.get("loss_only")))
     if kind.startswith("exp-ul") and case["server"] == "ref":
         link.ref.style = "exp_s"
     # stale frame already waiting before the transfer starts
-    k = ch.choose(1 + len(STALE), "start:stale-before-request")
+    k = 0 if case.get("loss_only") else ch.choose(1 + len(STALE), "start:stale-before-request")
     if k:
         link.deviations.append(("start", "stale-before-request:" + STALE[k - 1][0]))
         link._to_client(STALE[k - 1][1])
@@ -348,7 +362,8 @@ def run_case(case, st):
             st.violation(f"C07:{res[0]}:{kind}:{fnames}", rc, "SdoCommunicationError/SdoAbortedError", f"{res[1]} after {devs}")
         elif not devs and res[0] != "ok":
             st.violation(f"C07:undisturbed-fails:{kind}", rc, "ok", res)
-        if silent and len(devs) == 1 and res[0] == "SdoCommunicationError" and not timeout_abort:
+        only_losses = all(d[1] in ("lost", "late") for d in devs)
+        if silent and only_losses and res[0] == "SdoCommunicationError" and not timeout_abort:
             st.violation(f"C07:no-timeout-abort:{kind}:{where}", rc,
                          "client emits an abort with code 0x05040000 when it gives up waiting", f"{res} after {devs}")
         for fk, r0, r1 in follow:
